@@ -27,6 +27,7 @@ type Clause struct {
 	Exprs  []*Expr // for list clauses (modifies)
 	Line   int
 	File   string
+	Names  []string // candidates
 	Region *Expr // known-finding region (filled from known_findings.json)
 	Observed *Expr // known behaviour inside the region (proved on the callee side, assumed by callers)
 }
@@ -89,7 +90,7 @@ func (cl *Clause) LabelString() string {
 	return "[" + strings.Join(cl.Labels, ",") + "]"
 }
 
-var clauseKw = regexp.MustCompile(`^(requires|ensures|invariant|modifies|alias|safety|noOverread|ghost|loop|trusted|inline|decreases|assume|fresh|use)\b(\[[^\]]*\])?\s*(.*)$`)
+var clauseKw = regexp.MustCompile(`^(requires|ensures|invariant|modifies|alias|safety|noOverread|ghostset|ghost|loop|trusted|inline|decreases|assume|fresh|use|candidates|lockdiscipline|guarded)\b(\[[^\]]*\])?\s*(.*)$`)
 
 func (p *Program) parseContractText(pkg, file, text string) error {
 	lines := strings.Split(text, "\n")
@@ -110,7 +111,15 @@ func (p *Program) parseContractText(pkg, file, text string) error {
 				return fmt.Errorf("%s:%d: %v in %q", file, cl.Line, err, cl.Text)
 			}
 			cl.Expr = e
-		case "alias", "ghost":
+		case "guarded":
+			for _, part := range splitTop(cl.Text, ',') {
+				cl.Names = append(cl.Names, strings.TrimSpace(part))
+			}
+		case "candidates":
+			for _, part := range splitTop(cl.Text, ',') {
+				cl.Names = append(cl.Names, strings.TrimSpace(part))
+			}
+		case "alias", "ghost", "ghostset":
 			// "alias res.Data := data[9:9+n]"  / "ghost name type = expr"
 			parts := strings.SplitN(cl.Text, ":=", 2)
 			if len(parts) != 2 {
@@ -241,8 +250,8 @@ func (p *Program) parseContractText(pkg, file, text string) error {
 		case "inline":
 			cur.Inline = true
 			continue
-		case "safety":
-			cur.Clauses = append(cur.Clauses, &Clause{Kind: "safety", Labels: labels, Text: rest, Line: i + 1, File: file})
+		case "safety", "lockdiscipline":
+			cur.Clauses = append(cur.Clauses, &Clause{Kind: kw, Labels: labels, Text: rest, Line: i + 1, File: file})
 			continue
 		}
 		curClause = &Clause{Kind: kw, Labels: labels, Text: rest, Line: i + 1, File: file}
@@ -453,6 +462,17 @@ func (p *Program) parseSpecText(file, text string) error {
 	for i, ln := range lines {
 		t := strings.TrimSpace(ln)
 		if strings.HasPrefix(t, "#") || t == "" {
+			continue
+		}
+		if strings.HasPrefix(t, "ghost ") {
+			if err := flush(); err != nil {
+				return err
+			}
+			f := strings.Fields(t)
+			if len(f) != 3 {
+				return fmt.Errorf("%s:%d: ghost declaration: ghost <name> <type>", file, i+1)
+			}
+			p.Ghosts = append(p.Ghosts, ParamDecl{Name: f[1], Type: f[2]})
 			continue
 		}
 		if strings.HasPrefix(t, "fun ") || strings.HasPrefix(t, "ufun ") {
